@@ -349,6 +349,8 @@ struct Explorer {
 
 } // namespace exa
 
+namespace exa { int stream_main(const vf::Args &a); int alloc_main(const vf::Args &a); }
+
 static int do_replay(const Family *fam, const vf::Args &a, const std::vector<std::string> &oracles)
 {
   FILE *f = fopen(a.replay.c_str(), "r");
@@ -389,6 +391,8 @@ int main(int argc, char **argv)
 {
   vf::Args a = vf::parse_args(argc, argv);
   install_hooks();
+  if (a.family == "stream") return exa::stream_main(a);
+  if (a.family == "alloc") return exa::alloc_main(a);
   const Family *fam = find_family(a.family, a.tier);
   if (!fam) {
     fprintf(stderr, "unknown family %s\n", a.family.c_str());
